@@ -412,6 +412,13 @@ def recipeLoop : List Bytes → Nat → Recipe → Recipe
       let r2 := if needsValue && value.isEmpty then { r1 with errors := r1.errors ++ [(n, "needs-value")] } else r1
       recipeLoop rest (n + 1) r2
 
+/-- the whole recipe step of `main`: the loop, then the `-root` / `-profile` switches (the
+    settings `cmd` carried in from the command line) put back over what the recipe said -/
+def recipeApply (lines : List Bytes) (cmd : Recipe) : Recipe :=
+  let r := recipeLoop lines 1 cmd
+  { r with root := if cmd.root.isEmpty then r.root else cmd.root,
+           profile := if cmd.profile.isEmpty then r.profile else cmd.profile }
+
 end Lc.StageLine
 
 namespace Lc.StageLine
